@@ -714,6 +714,24 @@ func selectionSites(c *Ctx, ruleOri, ruleScan string, ihp *ssa.Function) {
 						}
 						for i, p := range l.Header.Preds {
 							if !l.Blocks[p] {
+								// the scan starts without an incumbent: a first element taken as it is would
+								// bypass the conditions under which the scan admits candidates
+								init := s.Env[ph.Edges[i]]
+								isNil := init != nil && init.IsNil()
+								if cv, isC := ph.Edges[i].(*ssa.Const); isC && cv.Value == nil {
+									isNil = true
+								}
+								if init != nil && !isNil {
+									okInit := true
+									for leaf := range u.Leaves(init) {
+										if !leaf.IsNil() {
+											okInit = false
+										}
+									}
+									isNil = okInit
+								}
+								c.Check(isNil, ruleOri, key+" -> loop-carried incumbent: the scan starts without an incumbent", site.Pos(), "initial incumbent nil",
+									"the scan starts with "+clip(u.Show(init), 80)+" as the incumbent: that element was not subjected to the tests the scan applies to its candidates (rules with $stealth, $cookie, $csp are no candidates), so which rule is selected depends on which one is listed first")
 								continue
 							}
 							next := s.Env[ph.Edges[i]]
